@@ -4,3 +4,4 @@ pub mod canon;
 pub mod cpkt4;
 pub mod cpkt5;
 pub mod dpkts;
+pub mod cwork;
